@@ -69,7 +69,7 @@ class ApiVersionRequest_v1(RequestStruct):
 class ApiVersionRequest_v2(RequestStruct):
     API_KEY = 18
     API_VERSION = 2
-    RESPONSE_TYPE = ApiVersionResponse_v1
+    RESPONSE_TYPE = ApiVersionResponse_v2
     SCHEMA = ApiVersionRequest_v0.SCHEMA
 
 
